@@ -290,6 +290,7 @@ class ContractReport:
     inlined: list[str] = field(default_factory=list)
     opaque: list[str] = field(default_factory=list)
     seconds: float = 0.0
+    defaults_bound: list[str] = field(default_factory=list)
 
 
 Z3_FIRST_MS: int | None = None  # when set (string-heavy contracts): z3 gets only this long before cvc5 is asked
@@ -455,14 +456,27 @@ def verify_contract(c: FunctionContract, replay: bool = True) -> ContractReport:
     global Z3_FIRST_MS
     Z3_FIRST_MS = c.z3_first_ms
     try:
-        return _verify_contract(c, replay)
+        rep = _verify_contract(c, replay)
+        if rep.outside is None and c.step is None and any(e.status != "discharged" for e in rep.elementary):
+            # Stage 2. Parameters the contract does not mention were unconstrained (the strongest reading). A refuted /
+            # unknown obligation may be due only to a NEW optional parameter whose non-default value changes the
+            # behaviour: re-verify with every unmentioned parameter at its declared default — the calls the contract
+            # was written about. If everything discharges, that (weaker, stated) claim is what is reported.
+            rep2 = _verify_contract(c, replay, bind_defaults=True)
+            if rep2.defaults_bound and rep2.outside is None and rep2.elementary and all(e.status == "discharged" for e in rep2.elementary):
+                for e in rep2.elementary:
+                    e.detail = (e.detail + " " if e.detail else "") + f"[holds for calls that leave {', '.join(sorted(set(rep2.defaults_bound)))} at the declared default; unconstrained, the obligation is not discharged]"
+                return rep2
+        return rep
     finally:
         Z3_FIRST_MS = None
 
 
-def _verify_contract(c: FunctionContract, replay: bool = True) -> ContractReport:
+def _verify_contract(c: FunctionContract, replay: bool = True, bind_defaults: bool = False) -> ContractReport:
     t0 = time.time()
     I = Interp(contracts=dict(c.callee_contracts), inline_depth=c.inline_depth)
+    I.bind_defaults = bind_defaults
+    I.defaults_bound = []
     if c.setup:
         c.setup(I)
     els: list[Elementary] = []
@@ -556,7 +570,7 @@ def _verify_contract(c: FunctionContract, replay: bool = True) -> ContractReport
                 continue
             r, m, be = _solve(base + p.state.pc + [z3.Not(cond)], c.timeout_ms)
             els.append(_elem(c, I, f"{c.key}#{pname}@path{i}", r, m, be, t1, sym, a, p, post, replay))
-    return ContractReport(c.key, els, len(paths), inlined=sorted(I.inlined), opaque=sorted(I.opaque_calls), seconds=time.time() - t0)
+    return ContractReport(c.key, els, len(paths), inlined=sorted(I.inlined), opaque=sorted(I.opaque_calls), seconds=time.time() - t0, defaults_bound=list(I.defaults_bound))
 
 
 def _exc_sub(I, cls: str, base: str) -> bool:
